@@ -129,6 +129,7 @@ GEN = {
     "UNICODE": lambda r: "zq" + "".join(r.choice("αβγδжзийलोग中文日本語éüß") for _ in range(r.randint(1, 8))),
     "METATEXT": lambda r: r.choice(["{read}", "{", "}", "{}", "{0}", "{0.x}", "{!r}", "read}", "{{", "%s", "%(name)s", "%", "100%", "\\", "\\N", "{node.content}", "$x", "${x}",
                                     "{" + _word(r) + "}", "%" + _word(r), _word(r) + "}" , "{:>" + str(r.randint(1, 9)) + "}"]),
+    "SENTINEL": lambda r: r.choice(["None", "null", "NULL", "Null", "undefined", "NaT", "N/A", "n/a", "True", "False", "true", "false", "nil", "<NA>", "NoneType", "nothing", "empty"]),
     "SURROGATE": lambda r: "zq" + r.choice(["\ud800", "\udfff", "a\udc00b"]),
     "INT4": lambda r: _int_in(r, 1000, 9999),
     "SCI": lambda r: r.choice(["1e2", "1E2", "1.5e2", "1.25E2", "1.79e2", "0.95e2", f"1.{r.randint(0, 7)}{r.randint(0, 9)}e2"]),
@@ -278,8 +279,7 @@ def w_cases(items):
             Node.store.clear()
             n += 1
             counts[c["verdict"]] += 1
-            if c["cls"] == "SURROGATE":
-                continue      # not a Unicode string: outside the quantifier, nothing judged (not even totality)
+            # (class SURROGATE - not a Unicode string - is UNSPEC for every kind: only totality is judged, as C04 does)
             for clause, exc in judge(c["verdict"], ff, craised, errs):
                 e = f":{type(exc).__name__}" if exc is not None else ""
                 cls = c["cls"] + (":" + c["bucket"] if c["bucket"] else "")
